@@ -288,7 +288,18 @@ func fill(rnd *hx.Rand, v reflect.Value, depth int) {
 		*x = randCPE(rnd)
 		return
 	case *time.Time:
-		*x = time.Unix(int64(rnd.Intn(2000000000)), int64(rnd.Intn(1000000000))).UTC()
+		// days up to the 28th: the model of time.Time's text form does not know month lengths
+		ns := 0
+		switch rnd.Intn(3) {
+		case 1:
+			ns = rnd.Intn(1000) * 1000000
+		case 2:
+			ns = rnd.Intn(1000000000)
+		}
+		*x = time.Date(1+rnd.Intn(9998), time.Month(1+rnd.Intn(12)), 1+rnd.Intn(28), rnd.Intn(24), rnd.Intn(60), rnd.Intn(60), ns, time.UTC)
+		if rnd.Chance(1, 6) {
+			*x = time.Time{}
+		}
 		return
 	case *json.RawMessage:
 		*x = json.RawMessage(`{"k":[1,2,{"z":null}]}`)
@@ -616,6 +627,8 @@ func Run(cfg hx.Config) error {
 		opVerUn(r, randBytes(rnd, "k:.-+0123456789", rnd.Intn(40)))
 	}
 	runSQL(r, cfg, rnd)
+	runJSON(r, cfg, rnd)
+	runScan(r, cfg, rnd)
 	// the zero Digest (recorded finding): it prints as "" which its own decoder rejects
 	{
 		var z claircore.Digest
